@@ -190,6 +190,11 @@ def _is_int_const(x):
 def mk_eq(a, b):
     if a == b:
         return ('const', 1)
+    for x, y in ((a, b), (b, a)):
+        # distance(C.begin(), it) == C.size()   <=>   it == C.end()      (same container state)
+        if isinstance(x, tuple) and len(x) == 5 and x[:3] == ('call', 'std::distance', None) and isinstance(x[3], tuple) and len(x[3]) == 3 \
+                and x[3][:2] == ('call', 'std::vector::begin') and y == ('call', 'std::vector::size', x[3][2]):
+            return mk_eq(x[4], ('call', 'std::vector::end', x[3][2]))
     if _is_int_const(a) and _is_int_const(b):
         return ('const', 0)
     for x, y in ((a, b), (b, a)):
@@ -559,6 +564,8 @@ class SymExec:
             for x, y in ((a, b), (b, a)):
                 if isinstance(y, tuple) and len(y) == 3 and y[0] == 'sub' and unver(y[2]) == unver(x):
                     return y[1]
+                if isinstance(y, tuple) and len(y) == 5 and y[:3] == ('call', 'std::distance', None) and unver(y[3]) == unver(x):
+                    return y[4]          # it0 + distance(it0, it)  ==  it
             return mk_comm('add', [a, b])
         if op == '*':
             return mk_comm('mul', [a, b])
@@ -688,7 +695,7 @@ class SymExec:
             if callee is not None and self.recognise_search and self.inline_stmt(callee) and tu.cfg(callee) is not None:
                 summ = self.search_summary(callee)
                 if summ is not None:
-                    return self.apply_search(summ, callee, vals)
+                    return self.apply_search(summ, callee, vals, this_nf=o, st=st)
             if callee is not None and self.own(callee):
                 r = self.inline(callee, o, vals, st, depth)
                 if r is not None:
@@ -706,7 +713,7 @@ class SymExec:
         if callee is not None and self.recognise_search and self.inline_stmt(callee) and tu.cfg(callee) is not None:
             summ = self.search_summary(callee)
             if summ is not None:
-                return self.apply_search(summ, callee, vals)
+                return self.apply_search(summ, callee, vals, st=st)
         if callee is not None and self.own(callee):
             r = self.inline(callee, None, vals, st, depth)
             if r is not None:
@@ -730,6 +737,8 @@ class SymExec:
         return o
 
     def elem(self, seq, idx):
+        if isinstance(idx, tuple) and len(idx) == 5 and idx[:3] == ('call', 'std::distance', None) and idx[3] == ('call', 'std::vector::begin', seq):
+            return mk_deref(idx[4])      # same container state: C[distance(C.begin(), it)] is *it
         # S[S.size() - 1]  ==  S.back()
         if isinstance(idx, tuple) and idx and idx[0] == 'add' and len(idx) == 3 and ('const', -1) in idx[1:]:
             s = [x for x in idx[1:] if x != ('const', -1)][0]
@@ -1006,7 +1015,8 @@ class SymExec:
                 follow = False        # a search helper recognised as defective is reported once, as such; its call stays a named call
             if summ is not None:
                 vals = self.args_nf(sd, args, st, 0)
-                val = self.apply_search(summ, callee, vals)
+                val = self.apply_search(summ, callee, vals,
+                                        this_nf=(self.call_obj(n, obj, st) if (sd.get('rec') and not callee.get('static')) else None), st=st)
                 st.vals[n['id']] = val
                 follow = False
             else:
@@ -1241,9 +1251,89 @@ class SymExec:
             self.inline_stmt, self.recognise_search, self._paths = saved
         r_ = self._cursor_search(fn, ps)
         if r_ is None:
+            r_ = self._index_search(fn, ps)
+        if r_ is None:
             r_ = self._counted_search(fn, ps)
         self._search[fid] = r_
         return r_
+
+    def _index_search(self, fn, ps):
+        """search by index: i = 0; while (i < C.size() && !(key(C[i]) == K)) ++i; return i;  - ('index', C, body)"""
+        cursor = None
+        for p in ps:
+            for ev in p.events:
+                if ev.kind in ('store', 'init', 'baseinit'):
+                    return None
+                if ev.kind == 'mutate':
+                    if ev.place is None or ev.place[0] != 'var' or ev.how != '++':
+                        return None
+                    if cursor is not None and cursor != ev.place:
+                        return None
+                    cursor = ev.place
+            if p.term[0] != 'return' or p.term[1] is None:
+                return None
+        if cursor is None:
+            return None
+        C = None
+        body = None
+        for p in ps:
+            incs = sorted(ev.conds_n for ev in p.events if ev.kind == 'mutate')
+            conds = [(unver(c), pol) for c, pol, _ in p.conds]
+            cur = ('const', 0)
+            k = 0
+            ninc = 0
+            done = False
+            first = True
+            while k < len(conds):
+                c, pol = conds[k]
+                # bound test: cur < C.size()   (0 < n for unsigned n is normalised to n != 0)
+                if first and isinstance(c, tuple) and c[0] == 'eq' and ('const', 0) in c[1:]:
+                    n_ = c[2] if c[1] == ('const', 0) else c[1]
+                    inside = not pol
+                elif isinstance(c, tuple) and c[0] == 'lt' and c[1] == cur:
+                    n_ = c[2]
+                    inside = pol
+                else:
+                    return None
+                if not (isinstance(n_, tuple) and n_[0] == 'call' and last(n_[1]) == 'size' and len(n_) == 3):
+                    return None
+                if C is None:
+                    C = n_[2]
+                elif C != n_[2]:
+                    return None
+                first = False
+                k += 1
+                if not inside:
+                    done = True
+                    break
+                if k >= len(conds):
+                    return None
+                c, pol = conds[k]
+                elem = ('elem', C, cur)
+                if not contains(c, elem):
+                    return None
+                b = self._subst(c, {elem: ('lparam', 0)})
+                if contains(b, cursor):
+                    return None
+                if body is None:
+                    body = b
+                elif body != b:
+                    return None
+                k += 1
+                if pol:
+                    done = True
+                    break
+                if ninc >= len(incs) or incs[ninc] != k:
+                    return None
+                ninc += 1
+                cur = cursor
+            if not done or k != len(conds) or ninc != len(incs):
+                return None
+            if unver(p.term[1]) != cur:
+                return None
+        if C is None or body is None or not (isinstance(body, tuple) and body[0] == 'eq') or contains(C, cursor):
+            return None
+        return ('index', C, body)
 
     def _counted_search(self, fn, ps):
         """hand-unrolled / counted linear search: a counter is set to distance(first, last), the cursor (first parameter) is only
@@ -1438,6 +1528,126 @@ class SymExec:
             return None
         return (c0, last_nf, body)
 
+    def lookup_form(self, fn, this=('this',), args=None):
+        """paths of a function that starts with its own search loop, rewritten as if it had called
+        `L = std::find_if(first, last, pred)` and branched on `L == last`: one path for the match (the loop variable replaced by L, the
+        statements executed inside the loop on a match as its events) and one path per way the code after the loop can run.  None when the
+        function does not have that shape."""
+        try:
+            ps = self.paths(fn, this=this, args=args)
+        except Unsupported:
+            return None
+        cursor = None
+        for p in ps:
+            for ev in p.events:
+                if ev.kind == 'mutate' and ev.place is not None and ev.place[0] == 'var' and ev.how in ('++', 'operator++'):
+                    if cursor is not None and cursor != ev.place:
+                        return None
+                    cursor = ev.place
+        if cursor is None:
+            return None
+        last_nf = None
+        for p in ps:
+            for c, pol, _ in p.conds:
+                cu = unver(c)
+                if isinstance(cu, tuple) and cu[0] == 'eq' and cursor in cu[1:]:
+                    o = cu[2] if cu[1] == cursor else cu[1]
+                    if last_nf is None:
+                        last_nf = o
+                    elif last_nf != o:
+                        return None
+        if last_nf is None or contains(last_nf, cursor):
+            return None
+        c0 = None
+        body = None
+        parsed = []
+        for p in ps:
+            incs = sorted(ev.conds_n for ev in p.events if ev.kind == 'mutate' and ev.place == cursor)
+            conds = [(unver(c), pol) for c, pol, _ in p.conds]
+            if not conds:
+                return None
+            first = conds[0][0]
+            if not (isinstance(first, tuple) and first[0] == 'eq' and last_nf in first[1:]):
+                return None
+            start = first[2] if first[1] == last_nf else first[1]
+            if c0 is None:
+                c0 = start
+            elif c0 != start:
+                return None
+            cur = c0
+            k = 0
+            ninc = 0
+            outcome = None
+            while k < len(conds):
+                c, pol = conds[k]
+                if not (isinstance(c, tuple) and c[0] == 'eq' and cur in c[1:] and last_nf in c[1:]):
+                    return None
+                k += 1
+                if pol:
+                    outcome = ('end', cur, k)
+                    break
+                if k >= len(conds):
+                    return None
+                c, pol = conds[k]
+                elem = ('deref', cur)
+                if not contains(c, elem):
+                    return None
+                b = self._subst(c, {elem: ('lparam', 0)})
+                if contains(b, cur) or contains(b, cursor):
+                    return None
+                if body is None:
+                    body = b
+                elif body != b:
+                    return None
+                k += 1
+                if pol:
+                    outcome = ('match', cur, k)
+                    break
+                if ninc >= len(incs) or incs[ninc] != k:
+                    return None
+                ninc += 1
+                cur = cursor
+            if outcome is None or ninc != len(incs):
+                return None
+            if outcome[0] == 'match' and k != len(conds):
+                pass      # further tests inside the loop body after the match are part of the match outcome
+            # events before the decision must be reads only (the search itself has no effect)
+            for ev in p.events:
+                if ev.conds_n < outcome[2] and ev.kind in ('store', 'init', 'baseinit'):
+                    return None
+                if ev.conds_n < outcome[2] and ev.kind == 'mutate' and ev.place != cursor:
+                    return None
+            parsed.append((p, outcome))
+        if c0 is None or body is None or contains(c0, cursor):
+            return None
+        L = ('call', 'std::find_if', None, c0, last_nf, ('pred', body))
+        test = mk_eq(L, last_nf)
+        out = []
+        seen = set()
+        for p, (kind, cur, k) in parsed:
+            sub = {cur: L} if kind == 'match' else {}
+            def sb(x, sub=sub):
+                return self._subst(unver(x), sub) if x is not None else None
+            conds = [(test, kind == 'end', None)] + [(sb(c), pol, n) for c, pol, n in p.conds[k:]]
+            events = []
+            for ev in p.events:
+                if ev.conds_n < k:
+                    continue
+                e2 = Event(ev.kind, ev.node, nf=sb(ev.nf) if isinstance(ev.nf, tuple) else ev.nf, place=sb(ev.place) if ev.place is not None else None,
+                           how=ev.how, value=(tuple(sb(v) for v in ev.value) if isinstance(ev.value, tuple) and ev.kind != 'store' else
+                                              (sb(ev.value) if ev.value is not None else None)),
+                           conds_n=ev.conds_n - k + 1, extra=ev.extra)
+                e2.ver, e2.inlined, e2.depth = {}, ev.inlined, ev.depth
+                events.append(e2)
+            t = p.term
+            term = ('return', sb(t[1]), t[2]) if t[0] == 'return' else t
+            sig = (tuple((c, pol) for c, pol, _ in conds), tuple((e.kind, e.how, repr(e.nf), repr(e.value)) for e in events), repr(term[:2]))
+            if sig in seen:
+                continue       # the same outcome reached after a different number of iterations
+            seen.add(sig)
+            out.append(PathResult(conds, events, term, {}, dict(p.env), p.blocks))
+        return out
+
     def function_search_shape(self, fn):
         """a function that *is* a linear search with its own outcomes (a range-for / iterator loop that returns from inside and
         does something else after the loop): dict(first, last, body over ('lparam',0), match=(kind, value over ('cursor',)),
@@ -1552,12 +1762,36 @@ class SymExec:
             return None
         return dict(first=c0, last=last_nf, body=body, match=match, end=endo)
 
-    def apply_search(self, summ, fn, vals):
-        c0, last_nf, body = summ
+    def _stamp(self, nf, st):
+        """give the place reads of a summary (written without versions) the versions current in st"""
+        if isinstance(nf, tuple):
+            if len(nf) == 3 and nf[0] == 'field' and isinstance(nf[2], str):
+                base = self._stamp(nf[1], st)
+                place = ('field', unver(base), nf[2])
+                if self.is_place(place):
+                    return ('field', base, nf[2], self.place_version(place, st))
+                return ('field', base, nf[2])
+            return tuple(self._stamp(x, st) for x in nf)
+        return nf
+
+    def apply_search(self, summ, fn, vals, this_nf=None, st=None):
+        r = self._apply_search(summ, fn, vals, this_nf)
+        return self._stamp(r, st) if st is not None else r
+
+    def _apply_search(self, summ, fn, vals, this_nf=None):
         m = {}
         for i, p in enumerate(fn.get('params', [])):
             if i < len(vals):
                 m[('param', i, p.get('name') or '')] = vals[i]
+        if this_nf is not None:
+            m[('this',)] = this_nf
+        if summ and summ[0] == 'index':
+            # position of the first matching element of container C, C.size() when there is none:  distance(C.begin(), find_if(...))
+            _tag, C, body = summ
+            C = self._subst(C, m)
+            b, e_ = ('call', 'std::vector::begin', C), ('call', 'std::vector::end', C)
+            return ('call', 'std::distance', None, b, ('call', 'std::find_if', None, b, e_, ('pred', self._subst(body, m))))
+        c0, last_nf, body = summ
         return ('call', 'std::find_if', None, self._subst(c0, m), self._subst(last_nf, m), ('pred', self._subst(body, m)))
 
     def _subst(self, nf, m):
